@@ -119,13 +119,17 @@ def check(run, replay):
 
     # ---- stream 3 + property: histories on the real binary
     ti_cache = {}
+    INCOPTS = HI.INC
+    d0 = T.vh_run("toolhash", [["", 0, 0, 0, 0, 0, "", 0, 0, 0, 1, "", "", "", 0, 0, 0, 0, "", "", "", "c", "", "", "a.c"]])[0]
+    defaults = {"platform": d0[2].decode(), "standards": d0[3].decode()} if len(d0) >= 4 else {}
+    run.extra["default_renderings"] = defaults
 
     def ti_for(opts):
         # toolinfo of these options for file f (the file path is streamed once the source does so)
         def ti_fn(f):
             key = (tuple(opts), f)
             if key not in ti_cache:
-                o = C.settings_of_cli(opts)
+                o = C.settings_of_cli(INCOPTS + list(opts), defaults, f)
                 o["render_filePath"] = f
                 r = T.model_run([["toolinfo"] + C.default_renderings(version, o)])[0]
                 ti_cache[key] = r[0] if r else b""
